@@ -33,13 +33,15 @@ def _ustr(unit):
     return u.Unit(unit).to_string()
 
 
-def make_table(shape, id0):
+def make_table(shape, id0, tscale="tcb"):
     import astropy.units as u
     from astropy.time import Time
     from thejoker import JokerSamples
     from .. import tokens
     n = shape["n"]
     tref = None if shape["meta"]["tref"] < 0 else Time(T0 + shape["meta"]["tref"], format="mjd", scale="tcb")
+    if tref is not None and tscale != "tcb":
+        tref = getattr(tref, tscale)          # the same instant, handed over on another time scale (one scale per history)
     s = JokerSamples(t_ref=tref, poly_trend=shape["meta"]["poly"], n_offsets=shape["meta"]["noff"])
     ids = [id0 + k for k in range(1, n + 1)]
     cols = []
@@ -173,7 +175,7 @@ def run_history(case):
     nid = 0
     for op in case["ops"]:
         if op["op"] == "write":
-            s, tbl = make_table(op["shape"], nid)
+            s, tbl = make_table(op["shape"], nid, case.get("tscale", "tcb"))
             nid += op["shape"]["n"]
             sha0 = tokens.file_sha(path) if os.path.exists(path) else ""
             ev = {"ev": "Write", "tbl": tbl, "ow": op["ow"], "ap": op["ap"], "raised": False}
@@ -248,14 +250,16 @@ def run(ctx, selftest=False):
             else:
                 ops.append({"op": "batch"})
         ops += [{"op": "read"}, {"op": "batch"}]
-        cases.append({"id": "rnd-%d" % j, "ops": ops, "seed": rnd.randint(0, 10**6), "workdir": ctx.workdir})
+        cases.append({"id": "rnd-%d" % j, "ops": ops, "seed": rnd.randint(0, 10**6), "workdir": ctx.workdir,
+                      "tscale": ["tcb", "utc", "tt", "tdb"][j % 4]})
     for j in range(20 if quick else 200):   # FITS: write / overwrite / read only
         base_cols = rnd.choice(colsets[:4])
         sh = {"cols": list(base_cols), "units": [ualt[c][0] for c in base_cols], "meta": {"tref": rnd.choice([0, 5, -1]), "poly": 1, "noff": 0},
               "n": rnd.randint(1, 30)}
         ops = [{"op": "write", "shape": sh, "ow": rnd.random() < 0.5, "ap": False}, {"op": "read"},
                {"op": "write", "shape": dict(sh, n=rnd.randint(1, 5)), "ow": rnd.random() < 0.6, "ap": False}, {"op": "read"}]
-        cases.append({"id": "fits-%d" % j, "ops": ops, "seed": j, "workdir": ctx.workdir, "ext": ".fits"})
+        cases.append({"id": "fits-%d" % j, "ops": ops, "seed": j, "workdir": ctx.workdir, "ext": ".fits",
+                      "tscale": ["tcb", "utc", "tt", "tdb"][j % 4]})
     traces = core.pmap(run_history, cases, chunksize=8)
     for c, t in zip(cases, traces):
         ctx.count()
